@@ -17,6 +17,8 @@ const (
 func (its *MongoCollections) GetNextCollectionNum(ctx iface.OrdaContext) (int32, errors.OrdaError) {
 	opts := options.FindOneAndUpdate()
 	opts.SetUpsert(true)
+	// return the incremented counter: the default (the document before the update) hands the same number out twice
+	opts.SetReturnDocument(options.After)
 	var update = bson.M{
 		"$inc": bson.M{schema.CounterDocFields.Num: 1},
 	}
